@@ -187,6 +187,9 @@ type env struct {
 	es   *epochState
 	mb   *meta.DB
 	nrun int
+	fill []oid.Address
+	// fillIdx = number of filler objects currently indexed in the metabase
+	fillIdx int
 }
 
 func (e *env) open() {
@@ -221,6 +224,33 @@ func (e *env) open() {
 	kit.Must(sh.Init())
 	e.sh = sh
 	e.mb = sh.VerifMetabase()
+}
+
+// fillers returns n addresses of regular filler objects in a container outside the catalogue, creating their
+// blobs on first use.
+func (e *env) fillers(n int) []oid.Address {
+	for len(e.fill) < n {
+		k := len(e.fill)
+		o := new(object.Object)
+		ver := version.Current()
+		o.SetVersion(&ver)
+		var c cid.ID
+		for i := range c {
+			c[i] = 0xFF // sorts after every catalogue container
+		}
+		var id oid.ID
+		id[0], id[1], id[2], id[3] = 0xEE, byte(k>>16), byte(k>>8), byte(k)
+		o.SetContainerID(c)
+		o.SetOwner(e.w.owner)
+		o.SetID(id)
+		o.SetType(object.TypeRegular)
+		o.SetPayloadSize(0)
+		o.SetPayloadChecksum(checksum.NewSHA256(sha256.Sum256(nil)))
+		a := oid.NewAddress(c, id)
+		kit.Must(e.fst.Put(a, o.Marshal()))
+		e.fill = append(e.fill, a)
+	}
+	return e.fill[:n]
 }
 
 func errClass(err error) string {
@@ -331,7 +361,9 @@ func (e *env) view() kit.M {
 		}
 		kit.Must(err)
 		for _, r := range res {
-			list = append(list, e.idx(r.Address.Object()))
+			if k := e.idx(r.Address.Object()); k != 0 { // fillers are outside the catalogue
+				list = append(list, k)
+			}
 		}
 		cur = c
 	}
@@ -380,6 +412,9 @@ func (e *env) view() kit.M {
 	}
 	cs, err := e.mb.ObjectCounters()
 	kit.Must(err)
+	// indexed filler objects (regular, root, empty payload) are not part of the catalogue
+	cs.Phy -= min(cs.Phy, uint64(e.fillIdx))
+	cs.Root -= min(cs.Root, uint64(e.fillIdx))
 	cnt := make([]uint64, e.w.cat.NC)
 	size := make([]uint64, e.w.cat.NC)
 	for c := 1; c <= e.w.cat.NC; c++ {
@@ -393,8 +428,23 @@ func (e *env) view() kit.M {
 	sort.Ints(garb)
 	return kit.M{"ex": ex, "get": get, "lk": lk, "ec": ec, "blob": blob, "list": nz(list), "expd": nz(expd), "srch": nz(srch),
 		"garb": nz(garb), "dead": nz(deadEmpty),
-		"ctr": kit.M{"phy": cs.Phy, "root": cs.Root, "ts": cs.TS, "lock": cs.Lock, "link": cs.Link, "gc": cs.GC, "pay": cs.Payload},
-		"cnt": cnt, "size": size}
+		"ctr": kit.M{"phy": capU(cs.Phy), "root": capU(cs.Root), "ts": capU(cs.TS), "lock": capU(cs.Lock), "link": capU(cs.Link), "gc": capU(cs.GC), "pay": capU(cs.Payload)},
+		"cnt": capS(cnt), "size": capS(size)}
+}
+
+// capU keeps counters inside TLC's 32-bit integers: a wrapped-around counter is reported as 2^30.
+func capU(u uint64) uint64 {
+	if u > 1<<30 {
+		return 1 << 30
+	}
+	return u
+}
+
+func capS(xs []uint64) []uint64 {
+	for i := range xs {
+		xs[i] = capU(xs[i])
+	}
+	return xs
 }
 
 func nz(x []int) []int {
@@ -489,8 +539,16 @@ func (e *env) exec(st step, w emitter) {
 			cur = c
 		}
 		out["n"], out["from"], out["pages"], out["res"] = st.N, st.From, pages, "ok"
+	case "Blob":
+		// leftover blob without metadata (crash between the blob write and the metabase step of a put)
+		kit.Must(e.fst.Put(e.w.addr(st.O), e.w.objs[st.O].Marshal()))
+		out["o"], out["res"] = st.O, "ok"
 	case "Resync":
-		order := make([]oid.Address, 0, len(st.Perm))
+		order := make([]oid.Address, 0, len(st.Perm)+st.B)
+		// st.B filler blobs (regular objects of a container outside the catalogue) are enumerated first, so that
+		// catalogue blobs fall on the metabase's internal batch boundary (1000) in some orders
+		fill := e.fillers(st.B)
+		order = append(order, fill...)
 		for _, i := range st.Perm {
 			order = append(order, e.w.addr(i))
 		}
@@ -499,7 +557,19 @@ func (e *env) exec(st step, w emitter) {
 			iterErrs = append(iterErrs, fmt.Sprintf("%d: %v", e.idx(a.Object()), err))
 			return nil
 		})
-		out["perm"], out["res"] = st.Perm, errClass(err)
+		out["perm"], out["res"], out["b"] = st.Perm, errClass(err), st.B
+		e.fillIdx = 0
+		if st.B > 0 {
+			// every filler must be indexed and available again
+			missing := 0
+			for _, a := range fill {
+				if ok, err := e.mb.Exists(a, false); err != nil || !ok {
+					missing++
+				}
+			}
+			out["fillers_missing"] = missing
+			e.fillIdx = st.B - missing
+		}
 		if len(iterErrs) > 0 {
 			out["iterr"] = iterErrs
 		}
